@@ -1062,8 +1062,18 @@ void StatementExecutor::execute_ternary_assignment(const ASTNode *node) {
         try {
             TypedValue typed_value =
                 interpreter_.evaluate_typed_expression(selected_branch);
-            interpreter_.assign_variable(node->name, typed_value,
-                                         typed_value.type.type_info, false);
+            // The store is governed by the TARGET's declared type, as in a
+            // plain assignment: an operand type such as bool (v = c ? -t : 7
+            // with bool t) must not normalise the value to 0/1.
+            TypeInfo store_type = typed_value.type.type_info;
+            if (store_type == TYPE_BOOL) {
+                Variable *target = interpreter_.find_variable(node->name);
+                if (target && target->type != TYPE_BOOL) {
+                    store_type = target->type;
+                }
+            }
+            interpreter_.assign_variable(node->name, typed_value, store_type,
+                                         false);
         } catch (const ReturnException &ret) {
             if (!node->name.empty()) {
                 if (TypeHelpers::isString(ret.type)) {
